@@ -1239,6 +1239,7 @@ package mcp
 // up on a pending call only if the client closed, there is no cursor at all, the connection was failed (retries
 // exhausted, reconnect or status error), or the caller's context is cancelled.
 //@ func (*streamableClientConn).handleSSE [C09, C01]
+//@   nopanic
 //@   track processStreamFrom as body
 //@   track connectSSE as reconnect
 //@   track (*streamableClientConn).fail as failConn
@@ -1261,12 +1262,13 @@ package mcp
 // is the id of the last event received in this body, or resumeID if the body brought none: a cursor is never
 // forgotten. The synthetic "terminated without response" error is produced only when there is no cursor at all.
 //@ func (*streamableClientConn).fail [C09]
+//@   nopanic
 //@   requires c != nil
 //@   modifies extern
 //@   modifies c._failure, chanState
 //@ func (*streamableClientConn).processStreamFrom [C09, C01]
+//@   nopanic
 //@   track fmt.Errorf as synthetic
-//@   track DecodeMessage as decode
 //@   requires c != nil && resp != nil
 //@   modifies *
 //@   rangeloop invariant @cursor-only-moves-forward resumeID != "" ==> local(lastEventID) != ""
@@ -1280,6 +1282,7 @@ package mcp
 // not make the session unusable (C04) - and any other read or decode failure fails the connection; only a decoded
 // reply is handed to the session.
 //@ func (*streamableClientConn).handleJSON [C04, C09]
+//@   nopanic
 //@   track (*streamableClientConn).fail as failConn
 //@   track ctx.Err as cancelled
 //@   track io.ReadAll as readBody
@@ -1303,6 +1306,7 @@ package mcp
 //@   pure
 //@   ensures @exactly-the-transient-statuses result <==> transientStatus(statusCode)
 //@ func (*streamableClientConn).checkResponse [C09]
+//@   nopanic
 //@   track Close as closeBody
 //@   ghost status := old(resp.StatusCode)
 //@   requires c != nil && resp != nil
@@ -1318,6 +1322,7 @@ package mcp
 // (HTTP header names are case-insensitive; these two differ.)
 //@ axiom lower("Accept") != lower(lastEventIDHeader)
 //@ func (*streamableClientConn).connectSSE [C09]
+//@   nopanic
 //@   track Do as send
 //@   heapfacts off
 //@   requires c != nil
@@ -1334,12 +1339,14 @@ package mcp
 //@   modifies extern
 
 //@ func calculateReconnectDelay [C09]
+//@   nopanic
 //@   modifies extern
 
 // scanEvents (the iterator it returns): an event is dispatched only when a blank line terminated it. The dispatch at
 // end of input after a non-blank line (known finding F5, pinned by the existing test "no trailing newline") hands a
 // cut-off event to the stream processor.
 //@ func scanEvents$1 [C09, C19]
+//@   nopanic
 //@   modifies *
 //@   callee yieldEvent: modifies *
 //@   callee yield: modifies *
